@@ -259,7 +259,7 @@ pub fn run_one(sc: &Scenario, schedule: &[String]) -> bool {
             SubDecl::Selector(sid, sel) => env.add_selector(*sid, *sel),
             SubDecl::Chan(sid, cap, pol) => {
                 env.add_channeled(*sid, *cap, *pol);
-                if s.adopt(200 + *sid as i64, STEP_TIMEOUT).is_none() {
+                if s.adopt(201 + 2 * (*sid as i64), STEP_TIMEOUT).is_none() {
                     println!("ERROR channeled thread of {} did not arrive", sid);
                 }
             }
